@@ -983,6 +983,31 @@ def listener_queues(v, wd, pid, seed, q, exes=None):
             em = res.emitted
             if q and not sim and len(em) > 700: em = random.Random(seed + 5).sample(em, 700)
             scns += em
+        # end to end: the packets of the real example talker (300 / 2000 of them, so the sequence number wraps) through the real
+        # listener, timer expirations lagging behind by a random number of packets
+        texe = xprog.build_xh(wd, kind + "-talker")
+        rt = random.Random(seed + 11)
+        if kind == "aaf":
+            npk = 300 if q else 2000
+            tin = [[rt.randrange(256) for _ in range(4)] for _ in range(npk)]
+            tl = "T 0 0 0 %d %s" % (npk, " ".join(hexs(c_) for c_ in tin))
+        else:
+            units = [[0, 0, 0, 1] + [rt.randrange(1, 256) for _ in range(rt.choice((1, 2, 5, 40, 300, 1390)))] for _ in range(60 if q else 400)]
+            flat = [b for u in units for b in u]
+            tin = [flat[i:i + 997] for i in range(0, len(flat), 997)]
+            if len(tin) > 1 and len(tin[-1]) < 3: tin[-2] += tin[-1]; tin.pop()
+            tl = "T 0 0 0 100000 " + " ".join(hexs(c_) for c_ in tin)
+        tres, _ = xprog.run_xh(texe, [tl])
+        tpk = [x for seg in tres[0]["outs"] for x in seg if not x.startswith("i")] if tres[0]["status"] == "ok" else []
+        if not tpk:
+            v.violation("stream-tunnel=%s outcome=talker-%s" % (kind, tres[0]["status"].split(":")[0]), "%s talker produced no packets (%s)" % (kind, tres[0]["status"]), {})
+        else:
+            th, pend = [], 0
+            for x in tpk:
+                th.append({"a": "packet", "bytes": unhexs(x)}); pend += 1
+                while pend and rt.random() < 0.6: th.append({"a": "timeout", "bytes": []}); pend -= 1
+            th += [{"a": "timeout", "bytes": []}] * pend
+            scns.append({"kind": kind, "hist": th, "tunnel": True, "input": tin})
         lines = ["L 0 0 1 " + " ".join(hexs(a["bytes"]) if a["a"] == "packet" else "-" for a in s["hist"]) for s in scns]
         obs, err = xprog.run_xh(exe, lines)
         evs = []
@@ -998,6 +1023,15 @@ def listener_queues(v, wd, pid, seed, q, exes=None):
                 else:
                     w = [x for x in seg if not x.startswith("E")]
                     evs.append({"e": "timeout", "out": unhexs("".join(w)), "ret": ret})
+            if s.get("tunnel") and kind == "aaf":
+                # the audio the talker read is the audio the listener presents, byte for byte
+                outb = [b for seg in o["outs"] for x in seg if not x.startswith("E") for b in unhexs(x)]
+                inb = [b for c_ in s["input"] for b in c_]
+                if outb != inb:
+                    k_ = next((i for i, (a_, b_) in enumerate(zip(outb, inb)) if a_ != b_), min(len(outb), len(inb)))
+                    v.violation("stream-tunnel=aaf outcome=not-transparent", "aaf talker -> listener: %d bytes in, %d bytes out, first difference at byte %d" % (len(inb), len(outb), k_),
+                                {"input_head": inb[:64], "output_head": outb[:64]})
+                v.cov["stream_tunnel_aaf_bytes"] = len(inb)
         v.cov["evaluations"] += len(lines)
         v.cov.setdefault("listener_queue_behaviours", 0); v.cov["listener_queue_behaviours"] += len(scns)
         cfgt = 'SPECIFICATION TSpec\nCONSTANTS\n  Buf = {1}\n  Kind = "%s"\nINVARIANT Fifo\nINVARIANT Ordered\nPOSTCONDITION TraceAccepted\nCHECK_DEADLOCK FALSE\n' % kind
@@ -1010,6 +1044,55 @@ def listener_queues(v, wd, pid, seed, q, exes=None):
         pdu.validate_events(v, wd, pdu.shard_by(evs, lambda e: e["e"] == "reset", 4), pid, "listener-queue-" + kind, module="ListenerQueueTrace", cfg=cfgt,
                             keyfn=keyfn, resume=resume, max_resume=4)
         if evs: v.sample({"listener_queue_event": {k: (x if not isinstance(x, list) or len(x) < 40 else x[:40]) for k, x in evs[1].items()}})
+
+
+def hello_text(v, wd, pid, seed, q, exe=None):
+    """Growth (anchors of C18): the hello-world listener as a function datagram -> printed text (TextListener.tla).  The datagram
+    grammar of DatagramGen, seeded bit-flips of well-formed datagrams and the packets of the real hello-world talker are handed to the
+    real listener loop (recv and stdout intercepted); what it prints per datagram is validated by TextTrace."""
+    import xprog
+    rnd = random.Random(seed + 3)
+    exe = exe or xprog.build_xh(wd, LISTENERS["hello"], sanitize=True)
+    cfg = 'SPECIFICATION Spec\nCONSTANTS\n  Buf = {1}\n  Listener = "hello"\nCONSTRAINT Emit\nINVARIANT Sane\nCHECK_DEADLOCK FALSE\n'
+    res = run_tlc("DatagramGen", cfg, wd, workers=4)
+    v.add_tlc("DatagramGen/hello (text)", res)
+    if not res.ok: raise Infra("DatagramGen: " + (res.violation or "")[-800:])
+    per_mode = {0: [], 1: []}
+    for cse in res.emitted: per_mode[cse["m0"]].append(cse["bytes"])
+    texe = xprog.build_xh(wd, "hello-talker")
+    for tscf in (0, 1):
+        for udp in (0, 1):
+            tres, _ = xprog.run_xh(texe, ["T %d %d 0 %d" % (tscf, udp, 12 if q else 300)])
+            if tres[0]["status"] == "ok":
+                per_mode[udp] += [unhexs(x) for seg in tres[0]["outs"] for x in seg if not x.startswith("i")]
+    for udp in (0, 1):
+        goods = list(per_mode[udp])
+        for _ in range(150 if q else 3000):
+            b = list(rnd.choice(goods))
+            for _ in range(rnd.randrange(1, 4)):
+                if b: b[rnd.randrange(len(b))] ^= 1 << rnd.randrange(8)
+            if len(b) > 17 and b[16:18] != [0, 0] and rnd.random() < 0.5: pass
+            per_mode[udp].append(b)
+    for udp in (0, 1):
+        dgs = [d for d in per_mode[udp]]
+        # message ids are printed in decimal: keep those the 32-bit integers of TLC can express (the talker counts from 0)
+        lines = ["L %d 0 1 %s" % (udp, " ".join(hexs(d) if d else "00" for d in dgs[i:i + 200])) for i in range(0, len(dgs), 200)]
+        groups = [dgs[i:i + 200] for i in range(0, len(dgs), 200)]
+        obs, _ = xprog.run_xh(exe, lines)
+        evs = []
+        for g, o in zip(groups, obs):
+            if o["status"] != "ok" or o["done"] < len(g):
+                v.violation("hello-text outcome=%s" % (o["status"].split(":")[0] if o["status"] != "ok" else "stuck"), "hello-world listener %s after %d of %d datagrams" % (o["status"], o["done"], len(g)), {}); continue
+            evs.append({"e": "reset"})
+            for d, seg in zip(g, o["outs"] + [[]] * len(g)):
+                evs.append({"e": "dgram", "bytes": d if d else [0], "out": unhexs("".join(seg))})
+        v.cov["evaluations"] += len(dgs)
+        cfgt = "SPECIFICATION TSpec\nCONSTANTS\n  Buf = {1}\n  Udp = %d\nPOSTCONDITION TraceAccepted\nCHECK_DEADLOCK FALSE\n" % udp
+        pdu.validate_events(v, wd, pdu.shard_by(evs, lambda e: e["e"] == "reset", 4), pid, "hello-text-udp%d" % udp, module="TextTrace", cfg=cfgt,
+                            keyfn=lambda e, a=None, b=None: "hello-text event=%s printed-text-differs" % e["e"])
+        printed = [e for e in evs if e["e"] == "dgram" and e["out"]]
+        v.cov.setdefault("hello_text", {})["udp=%d" % udp] = {"datagrams": len(dgs), "printing": len(printed)}
+        if printed: v.sample({"hello_text_event": {"out": bytes(printed[0]["out"]).decode("latin1"), "bytes": printed[0]["bytes"][:48]}})
 
 
 @check("C18", "exploration")
@@ -1100,6 +1183,7 @@ def c18(v, tier, seed):
                 ev.get("report", ""), ev["bytes"][:160]), {"event": ev})
     v.sample({"observation": {k: all_events[0][k] for k in ("listener", "classes", "mode", "n", "status", "done")}})
     listener_queues(v, wd, "C18", seed, q, exes)
+    hello_text(v, wd, "C18", seed, q, exes.get("hello"))
     v.cov["distinct_nontrivial"] = ncases
     v.cov["rule"] = ("TLC enumerates the datagram grammar of DatagramGen per listener and mode (length fields 0 / off by one unit / maximum / beyond the datagram, zero-length "
                      "and over-long ACF messages, wrong types, each validity field wrong, truncation at every structural boundary +-1, over-long datagrams, unterminated strings) "
